@@ -36,7 +36,7 @@ def run(ctx):
         n = 60 if ctx.tier == 'quick' else 800
         items = []
         for k in range(n):
-            kinds = ['plain', 'aa-file-at-2', 'watford-hi-start', 'watford-large', 'forge-18', 'side2-catalogue', 'opus', 'plain']
+            kinds = ['plain', 'aa-file-at-2', 'watford-hi-start', 'watford-large', 'forge-18', 'side2-catalogue', 'opus', 'aa-empty-file-at-2', 'forge-opus-table', 'plain']
             kind = kinds[k % len(kinds)]      # every kind in every run, whatever the seed
             used = set()
             if kind == 'aa-file-at-2':
@@ -47,6 +47,30 @@ def run(ctx):
                 files.reverse()
                 d = discs.AbsDisc('dfs', r.choice([40, 80]), 10)
                 d.cats = [discs.AbsCat(b'AAFILE', 0, 0, min(d.side_sectors(), 400 if d.tracks == 40 else 800), files)]
+            elif kind == 'aa-empty-file-at-2':
+                # an empty file catalogued at sector 2 (it owns no sector) over stale Watford recognition bytes: still an Acorn disc
+                f = discs.AbsFile(0x24, b'EMPTY', False, 0, 0, 2, b'')
+                more = discs.layout_files(r, r.choice([0, 1, 3]), 3, 400, used)
+                files = [f] + more
+                files.reverse()
+                d = discs.AbsDisc('dfs', r.choice([40, 80]), 10)
+                d.cats = [discs.AbsCat(b'AAEMPTY', 0, 0, min(d.side_sectors(), 400 if d.tracks == 40 else 800), files)]
+                d.stale = {2: b'\xAA' * 8 + bytes(248)}
+            elif kind == 'forge-opus-table':
+                # a file over sector 16 imitating an Opus volume table: 720 sectors, 18 per track, 40 tracks, volume A at track 1,
+                # the other slots pointing off the disc (track 255) or at track 0: inconsistent, so not an Opus disc
+                d = discs.gen_disc(r, variant='dfs', geom=(40, 18), max_files=2, total=720)
+                tbl = bytearray(256)
+                tbl[1:5] = bytes([0x02, 0xD0, 18, 40])
+                tbl[8] = 1
+                junk = r.choice([255, 41, 200])        # off the disc: the table is inconsistent (an all-consistent table would make the disc an Opus disc)
+                for sl in range(1, 8):
+                    tbl[8 + 2 * sl] = junk if r.chance(2, 3) else 0
+                tbl[8 + 2] = junk
+                body = bytearray(r.bytes(16 * 256))
+                body[14 * 256:15 * 256] = tbl
+                f = discs.AbsFile(0x24, b'FORGE', False, 0, 0, 2, bytes(body))
+                d.cats[0].files = [x for x in d.cats[0].files if x.start >= 18] + [f]
             elif kind == 'watford-hi-start':
                 d = discs.AbsDisc('wdfs', 80, 18)
                 st = r.choice([0x102, 0x202, 0x302])
@@ -83,6 +107,8 @@ def run(ctx):
             fill = discs.filler(r)
             seedfill = r.next()
             img = d.encode(lambda nn, s=seedfill: vlib.Rng(s).bytes(nn) if s % 3 else bytes(nn))
+            for sec_, bytes_ in getattr(d, 'stale', {}).items():
+                img = img[:sec_ * 256] + bytes_ + img[sec_ * 256 + len(bytes_):]
             # the same disc with every file body replaced (same lengths), same unallocated space
             d2 = d
             saved = []
@@ -90,12 +116,14 @@ def run(ctx):
                 saved.append((f, f.body))
             for (f, body) in saved:
                 keep = 8 if (kind == 'aa-file-at-2' and f.start == 2) else 0
-                if kind == 'forge-18' and f.name == b'FORGE':
+                if kind in ('forge-18', 'forge-opus-table') and f.name == b'FORGE':
                     continue
                 if kind == 'side2-catalogue' and f.name == b'CATLIKE':
                     continue
                 f.body = body[:keep] + vlib.Rng(seedfill ^ 0x55).bytes(len(body) - keep)
             img2 = d.encode(lambda nn, s=seedfill: vlib.Rng(s).bytes(nn) if s % 3 else bytes(nn))
+            for sec_, bytes_ in getattr(d, 'stale', {}).items():
+                img2 = img2[:sec_ * 256] + bytes_ + img2[sec_ * 256 + len(bytes_):]
             for (f, body) in saved:
                 f.body = body
             ext = d.extension()
@@ -159,6 +187,35 @@ def run(ctx):
                 continue
             if a.impl['out'] != b.impl['out'] or a.impl['exit'] != b.impl['exit']:
                 ctx.violation('body-dependent-listing', 'cat output changed with the file bodies (%s)' % a.meta['it']['kind'], common.replay_of(a))
+        # two-sided images whose sides carry different variants: every surface is identified on its own markers
+        mixed = []
+        for (v0, v1) in (('dfs', 'wdfs'), ('wdfs', 'dfs'), ('wdfs', 'wdfs'), ('dfs', 'dfs')):
+            sides = []
+            for v in (v0, v1):
+                for _ in range(50):
+                    dd = discs.gen_disc(r, variant=v, geom=(80, 10), total=800, max_files=(40 if v == 'wdfs' else 6))
+                    if v != 'wdfs' or (dd.cats[1].files and dd.cats[0].files):
+                        break
+                sides.append(dd)
+            s0 = sides[0].encode(lambda nn: bytes(nn))
+            s1 = sides[1].encode(lambda nn: bytes(nn))
+            il = b''.join(s0[t * 2560:(t + 1) * 2560] + s1[t * 2560:(t + 1) * 2560] for t in range(80))
+            for side, dd in enumerate(sides):
+                mixed.append(vlib.Case('mixed-%s-%s' % (v0, v1), {'m.dsd': il}, ['--file', '@m.dsd', 'info', ':%d.*.*' % (2 * side)],
+                                       meta={'want': len(dd.all_files()), 'variant': dd.variant, 'side': side, 'pair': (v0, v1)}))
+        vlib.run_cases(mixed, impl['dfs'])
+        for c in mixed:
+            common.compare_model(ctx, c, 'e2e-mixed-sides')
+            ctx.oracle_cases += 1
+            ctx.count('mixed-sides.%s-%s' % c.meta['pair'])
+            ctx.case(('mixed', c.meta['pair'], c.meta['side']), True, sample={'pair': list(c.meta['pair']), 'side': c.meta['side'], 'exit': c.impl['exit']})
+            if common.crash_violation(ctx, c):
+                continue
+            shown = len([l for l in c.impl['out'].split(b'\n') if l.strip()])
+            if c.impl['exit'] != 0 or shown != c.meta['want']:
+                ctx.violation('mixed-sides:%s-on-side-%d' % (c.meta['variant'], c.meta['side']),
+                              'a .dsd with %s on side 0 and %s on side 1: info on side %d lists %d files, its catalogue(s) hold %d (exit %d)' % (
+                                  c.meta['pair'][0], c.meta['pair'][1], c.meta['side'], shown, c.meta['want'], c.impl['exit']), common.replay_of(c))
     finally:
         shutil.rmtree(tmp, ignore_errors=True)
 
